@@ -216,11 +216,27 @@ func (p *process) cleanup(cancel context.CancelFunc) {
 	}
 	defer p.releaseWaiters()
 	p.terminated = true
+	if parent := p.context.parentCtx; parent != nil {
+		parent.leaving.Set(p, struct{}{})
+		defer parent.leaving.Delete(p)
+	}
 
 	if p.context.children.Len() > 0 {
 		children := p.context.Children()
 		for _, pid := range children {
 			<-p.context.engine.Poison(pid).Done()
+		}
+	}
+	// A child whose id was spawned again while it was stopping is not in the
+	// list above any more. It is still ours to wait for.
+	var leaving []*process
+	p.context.leaving.ForEach(func(child *process, _ struct{}) {
+		leaving = append(leaving, child)
+	})
+	for _, child := range leaving {
+		done := make(chan struct{})
+		if child.awaitStop(func() { close(done) }) {
+			<-done
 		}
 	}
 
